@@ -56,9 +56,11 @@ def cmd_confirm(name):
             res["apply_output"] = out[-1500:]
             return res
         sh("git reset -q", cwd=wt)
-        rc, out = sh("cargo test --offline 2>&1 | grep -E '^test result|FAILED|failed|panicked' | head -20", cwd=wt, timeout=3000)
+        rc, out = sh("cargo test --offline 2>&1 | grep -E '^test result|FAILED|failed|panicked|^error' | head -20", cwd=wt, timeout=3000)
         res["suite_with_patch"] = out.strip().splitlines()
-        res["suite_passes_with_patch"] = ("FAILED" not in out) and ("test result: ok" in out)
+        # all three test binaries (unit, integration, doc) must report ok: a run that was killed or
+        # that stopped at the first failing binary does not count as a pass
+        res["suite_passes_with_patch"] = ("FAILED" not in out) and ("error: test failed" not in out) and out.count("test result: ok") >= 3
         demo = os.path.join(d, "demo.rs")
         if os.path.exists(demo):
             shutil.copy(demo, os.path.join(wt, "tests", "demo.rs"))
